@@ -101,6 +101,9 @@ def _values(family):
     if family == "surrogate":
         # a lone surrogate is an ordinary Python str value and representable in JSON (escaped): "arbitrary unicode"
         base.update(pushname=u"Ann \ud83d", fdid=u"\udc00x")
+    if family == "empty":
+        # present but empty: still values the application set
+        base.update(pushname="", chat_dns_domain="", fdid="", edge_routing_info=b"", id=b"", expid=b"", login="", mcc="", mnc="")
     if family == "zeros":
         base.update(id=bytes(20), expid=bytes(16), edge_routing_info=b"\x00", server_static_public=PublicKey(bytes(32)), mcc="000", mnc="000", pushname="0")
     return base
@@ -122,6 +125,16 @@ def _subset(ctx, thorough_random):
     import random
     r = random.Random(int(os.environ.get("VERIF_SEED", "0") or 0) * 1000 + int(which[7:]))
     return which, {"phone"} | set(f for f in FIELDS[1:] if r.random() < 0.5)
+
+
+class _Expected(object):
+    """the values the harness wrote (not what a Config object made of them)"""
+
+    def __init__(self, vals):
+        self.vals = vals
+
+    def __getattr__(self, f):
+        return self.vals.get(f)
 
 
 def _config_eq(a, b, keyval):
@@ -166,10 +179,10 @@ def h_roundtrip(ctx, nrandom):
     with _Env() as env:
         fmt = ctx.choice("format", ["json", "keyval"])
         how = ctx.choice("load_by", ["path-with-extension", "path-without-extension", "profile-name", "fresh-profile-name"])
-        family = ctx.choice("values", ["plain", "unicode", "zeros", "surrogate"])
+        family = ctx.choice("values", ["plain", "unicode", "zeros", "surrogate", "empty"])
         locale_enc = ctx.choice("locale_encoding", ["utf-8", "ascii"])
         name, subset = _subset(ctx, nrandom)
-        if fmt == "keyval" and family in ("unicode", "surrogate"):
+        if fmt == "keyval" and family in ("unicode", "surrogate", "empty"):
             return []              # arbitrary unicode is quantified for JSON only
         if locale_enc == "ascii" and name not in ("all", "only-phone", "phone+pushname", "without-pushname"):
             return []              # the locale dimension is explored on the representative subsets only
@@ -188,13 +201,13 @@ def h_roundtrip(ctx, nrandom):
             return open(path, mode, *a, **k)
         tools_.open = manager_.open = locale_open
         try:
-            return _roundtrip_body(ctx, env, cm, cfg, st, fmt, how)
+            return _roundtrip_body(ctx, env, cm, cfg, st, fmt, how, vals)
         finally:
             del tools_.open
             del manager_.open
 
 
-def _roundtrip_body(ctx, env, cm, cfg, st, fmt, how):
+def _roundtrip_body(ctx, env, cm, cfg, st, fmt, how, vals):
     from yowsup.config.manager import ConfigManager
     from yowsup.config.v1.config import Config
     if True:
@@ -211,8 +224,8 @@ def _roundtrip_body(ctx, env, cm, cfg, st, fmt, how):
             dest = os.path.join(env.d, "myconfig" + ext)
             cm.save("unused", cfg, st, dest=dest)
             loaded = cm.load(dest)
-        bad = _config_eq(cfg, loaded, fmt == "keyval")
-        return [("loaded configuration equals the saved one (differing fields: %s)" % bad, not bad)]
+        bad = _config_eq(_Expected(vals), loaded, fmt == "keyval")
+        return [("loaded configuration equals what was written (differing fields: %s)" % bad, not bad)]
 
 
 # ---- crash while saving ----------------------------------------------------------------------------------------------------------
